@@ -7,6 +7,7 @@ package main
 // what it returns / emits must be exactly what a fresh IdentityProvider with that configuration would.
 
 import (
+	"runtime/debug"
 	. "verifharness/internal/core"
 
 	"fmt"
@@ -230,10 +231,13 @@ func (w *idpWorld) metaOf(ed *saml.EntityDescriptor) *mMeta {
 
 func seqC05(c *Ctx, g *Group) {
 	r := c.Rng
-	rounds := 12
+	rounds := 24
 	if c.Thorough() {
-		rounds = 120
+		rounds = 240
 	}
+	// no collection while two requests are held: whatever the library shares between two decodings
+	// (pools, caches) stays shared, as in a busy server between two collections
+	defer debug.SetGCPercent(debug.SetGCPercent(-1))
 	for k := 0; k < rounds; k++ {
 		w := newWorld()
 		cfg := seqBaseCfg()
@@ -254,7 +258,8 @@ func seqC05(c *Ctx, g *Group) {
 		}
 		withIdx := func(i string) func(*mWire) { return func(w *mWire) { w.ACSIndex = i } }
 		variants = append(variants, withIdx("0"), withIdx("1"), withIdx("2"), withIdx("9"))
-		i1, i2 := r.Intn(len(variants)), r.Intn(len(variants))
+		i1 := r.Intn(len(variants))
+		i2 := (i1 + 1 + r.Intn(len(variants)-1)) % len(variants) // a different one
 		w1, w2 := base, base
 		variants[i1](&w1)
 		variants[i2](&w2)
